@@ -83,7 +83,7 @@ func staticCalleeName(v ssa.Value) (string, *ssa.Call) {
 	if !ok {
 		return "", nil
 	}
-	sc := call.Call.StaticCallee()
+	sc := ir.Callee(call.Call)
 	if sc == nil {
 		return "", call
 	}
@@ -283,7 +283,7 @@ func encodeSet(c *Ctx) map[*ssa.Function]bool {
 				for _, b := range f.Blocks {
 					for _, ins := range b.Instrs {
 						if ci, ok := ins.(ssa.CallInstruction); ok {
-							if sc := ci.Common().StaticCallee(); sc != nil {
+							if sc := ir.Callee(ci.Common()); sc != nil {
 								target = sc
 							}
 						}
@@ -333,7 +333,7 @@ func runDET(c *Ctx) {
 						bad = true
 						c.Violation(fn, pos, "cap() on the encode path", "slice capacity is not a function of the node's contents")
 					}
-					if sc := com.StaticCallee(); sc != nil && sc.Pkg != nil {
+					if sc := ir.Callee(com); sc != nil && sc.Pkg != nil {
 						for _, bp := range badPkgs {
 							if sc.Pkg.Pkg.Path() == bp {
 								bad = true
